@@ -49,6 +49,7 @@ func HandWritten() []*Case {
 		mk("h29", "three-level-embedding", "ph29", "type Timestamps struct{ Created, Updated int64 }\ntype Record struct {\n\tTimestamps\n\tId int64\n}\ntype User struct {\n\tRecord\n\tName string\n}\ntype Admin struct {\n\tUser\n\tLevel int\n}\n", ""),
 		mk("h30", "promoted-marker-method", "ph30", "type Shape interface{ isShape(); area() }\ntype base struct{}\nfunc (base) isShape() {}\ntype Circle struct {\n\tbase\n\tR float64\n}\nfunc (Circle) area() {}\ntype Dot struct{ base }\nfunc (Dot) area() {}\ntype W struct{ S Shape }\n", ""),
 		mk("h31", "id-after-unexported-fields", "ph31", "type IdAccount int64\ntype Account struct {\n\tdirty bool\n\tversion int\n\tName string\n\tId IdAccount\n}\ntype Entry struct {\n\tnote string\n\tIdAccount IdAccount\n\tID int64\n}\n", ""),
+		mk("h32", "unions-sharing-prefix-and-member", "ph32", "type Shape interface{ isShape() }\ntype Shadow interface{ isShadow() }\ntype Circle struct{ R float64 }\nfunc (Circle) isShape() {}\nfunc (Circle) isShadow() {}\ntype W struct {\n\tA Shape\n\tB Shadow\n}\n", ""),
 		withSub(mk("h21", "short-imported-package-name", "ph21", "type S struct{ V ab.T; W ab.N }\n", ""), "ab", "type T struct{ X int }\ntype N int\n"),
 		withSub(mk("h22", "two-letter-imported-package-name", "ph22", "type S struct{ V p2.T }\n", ""), "p2", "type T struct{ X string }\n"),
 	}
